@@ -294,6 +294,78 @@ theorem Factory.Spells.range {f : Factory} {name : Str} {n : Nat} (h : f.Spells 
   · obtain ⟨_, rfl⟩ := h
     exact ⟨Nat.le_refl _, hf⟩
 
+/-! ## the auto-degree alias is a total function onto existing rules -/
+
+/-- every name `AutoDegree::choose` can return, for ANY requested degree, is one of its values on 0..40 -/
+def autoTargets (pfx : Bool) (s : Shape) : List Str := (List.range 41).map (autoChoose pfx s)
+
+theorem autoChoose_gl_clamp (pfx : Bool) (pre : String) (d : Nat) :
+    ((if pfx then pre.toList else []) ++ "gauss-legendre:".toList ++ natStr (min (max (d / 2 + 1) 1) 20)) =
+    ((if pfx then pre.toList else []) ++ "gauss-legendre:".toList ++ natStr (min (max (min d 38 / 2 + 1) 1) 20)) := by
+  have : min (max (d / 2 + 1) 1) 20 = min (max (min d 38 / 2 + 1) 1) 20 := by omega
+  rw [this]
+
+theorem autoChoose_mem_targets (pfx : Bool) (s : Shape) (d : Nat) : autoChoose pfx s d ∈ autoTargets pfx s := by
+  unfold autoTargets
+  cases s
+  · exact List.mem_map.2 ⟨min d 38, List.mem_range.2 (by omega), (autoChoose_gl_clamp pfx "scalar:" d).symm⟩
+  · -- triangles: the result only depends on the 32-bit value of the degree
+    show (match toInt32 d with
+      | 0 | 1 => "barycentre".toList
+      | 2 => "dunavant:".toList ++ natStr 2
+      | 3 | 4 => "dunavant:".toList ++ natStr 4
+      | 5 => "dunavant:".toList ++ natStr 5
+      | 6 => "dunavant:".toList ++ natStr 6
+      | 7 | 8 => "dunavant:".toList ++ natStr 8
+      | 9 => "dunavant:".toList ++ natStr 9
+      | 10 => "dunavant:".toList ++ natStr 10
+      | 11 | 12 => "dunavant:".toList ++ natStr 12
+      | 13 => "dunavant:".toList ++ natStr 13
+      | 14 => "dunavant:".toList ++ natStr 14
+      | 15 | 16 | 17 => "dunavant:".toList ++ natStr 17
+      | _ => "dunavant:".toList ++ natStr 19) ∈ _
+    split <;> (cases pfx <;> decide +kernel)
+  · -- tetrahedra
+    have h : autoChoose pfx .s3 d = autoChoose pfx .s3 (min d 8) := by
+      unfold autoChoose
+      simp only
+      by_cases h1 : d ≤ 1
+      · have : min d 8 = d := by omega
+        rw [this]
+      · by_cases h2 : d ≤ 2
+        · have : min d 8 = d := by omega
+          rw [this]
+        · by_cases h3 : d ≤ 3
+          · have : min d 8 = d := by omega
+            rw [this]
+          · by_cases h5 : d ≤ 5
+            · have : min d 8 = d := by omega
+              rw [this]
+            · by_cases h7 : d ≤ 7
+              · have : min d 8 = d := by omega
+                rw [this]
+              · have a1 : ¬ min d 8 ≤ 1 := by omega
+                have a2 : ¬ min d 8 ≤ 2 := by omega
+                have a3 : ¬ min d 8 ≤ 3 := by omega
+                have a5 : ¬ min d 8 ≤ 5 := by omega
+                have a7 : ¬ min d 8 ≤ 7 := by omega
+                simp only [h1, h2, h3, h5, h7, a1, a2, a3, a5, a7, if_false]
+    rw [h]
+    exact List.mem_map.2 ⟨min d 8, List.mem_range.2 (by omega), rfl⟩
+  · exact List.mem_map.2 ⟨min d 38, List.mem_range.2 (by omega), (autoChoose_gl_clamp pfx "tensor:" d).symm⟩
+  · exact List.mem_map.2 ⟨min d 38, List.mem_range.2 (by omega), (autoChoose_gl_clamp pfx "tensor:" d).symm⟩
+  · exact List.mem_map.2 ⟨min d 38, List.mem_range.2 (by omega), (autoChoose_gl_clamp pfx "tensor:" d).symm⟩
+
+/-- every possible auto-degree target is an existing rule of the shape, in both configurations -/
+def autoTargetsExist (pfx : Bool) (s : Shape) : Bool :=
+  (autoTargets pfx s).all fun nm =>
+    match createBase pfx (Gen.factoriesOf s) nm with
+    | some (f, n) => (nominal f.name n).isSome
+    | none => false
+
+theorem autoTargetsExist_all :
+    (allShapes.all fun s => autoTargetsExist false s && autoTargetsExist true s) = true := by decide +kernel
+
 theorem mem_allShapes (s : Shape) : s ∈ allShapes := by cases s <;> simp [allShapes]
 
 end FeatModel.Cub
